@@ -16,9 +16,11 @@ rc=$?
 if [ $rc -ne 0 ]; then git checkout -- .; exit $rc; fi
 git --no-pager diff --stat | tail -1
 cd /verif
+rm -rf /verif/target/evidence.bak; cp -r /verif/evidence /verif/target/evidence.bak
 for id in ${ids//,/ }; do
   ./check "$id" --tier quick | grep -E "VIOLATION|KNOWN|inconclusive|violation\(s\)" | head -6
   echo "exit=${PIPESTATUS[0]} ($id)"
   rm -rf /verif/replay/$id/found
 done
 git -C /repo checkout -- .
+rm -rf /verif/evidence; mv /verif/target/evidence.bak /verif/evidence
